@@ -1932,3 +1932,58 @@ Example sx_needs_attrs_vs_children :
   | None => (false, false, false, true, false, Some FNone)
   end = (true, true, true, false, true, None).
 Proof. vm_compute. reflexivity. Qed.
+
+(* ---------- readings (definitions restated, for Properties/C13.v) ---------- *)
+Lemma StringTypedAt_reading x v d :
+  StringTypedAt x v d <->
+  exists n ef a ks m kef ka kk c,
+    v = VElem n ef a ks /\ In (VElem m kef ka kk) (eff ef ks)
+    /\ get_child (echildren x) m = Some c
+    /\ ((contains_only_text (snd c) = true /\ d = VElem m kef ka kk)
+        \/ StringTypedAt (snd c) (VElem m kef ka kk) d).
+Proof.
+  split.
+  - intros H. destruct H as [x n ef a ks m kef ka kk c Hk G Hot|x n ef a ks m kef ka kk c d Hk G Hd];
+      exists n, ef, a, ks, m, kef, ka, kk, c; repeat split; auto.
+  - intros (n & ef & a & ks & m & kef & ka & kk & c & -> & Hk & G & [[Hot ->]|Hd]).
+    + now apply (sta_here x n ef a ks m kef ka kk c).
+    + now apply (sta_below x n ef a ks m kef ka kk c d).
+Qed.
+
+Lemma sx_hypotheses_reading :
+  (forall e, attrs_plain e <->
+     eforallb (fun x => forallb (fun a => plain_b (snd a)) (eattrs x)) e = true)
+  /\ (forall e, namespace_free e <->
+        eforallb (fun x => forallb (fun a => nocolon (snd a) && negb (str_eqb (snd a) (s "xmlns")))
+                                   (eattrs x)
+                           && forallb (fun c => nocolon (cname c)) (echildren x)) e = true)
+  /\ (forall e, attrs_vs_children_names e <->
+        eforallb (fun x => forallb (fun a => negb (mem (snd a) (child_names (echildren x))))
+                                   (eattrs x)) e = true)
+  /\ (forall e, attrs_vs_children e <->
+        eforallb (fun x => forallb (fun a => negb (mem (attr_local (snd a))
+                                                       (map (fun c => remove_namespace (cname c))
+                                                            (echildren x))))
+                                   (eattrs x)) e = true).
+Proof. repeat split; intros H; exact H. Qed.
+
+Lemma serde_xml_rs_value_reading :
+  text_identifier serde_xml_rs_value = s "$value"
+  /\ attribute_prefix serde_xml_rs_value = attribute_prefix serde_xml_rs
+  /\ derive serde_xml_rs_value = derive serde_xml_rs /\ sort serde_xml_rs_value = sort serde_xml_rs.
+Proof. repeat split. Qed.
+
+(* `attrs_plain` (a hypothesis the property's text does not spell out, true of every XML name)
+   is needed on the model: an attribute called `$value` (not an XML name, but a value of the
+   model's type) shares its key with the character data, and its String field gets two values *)
+Definition sx_attr_dollar : list vnode :=
+  [VElem (s "r") false [(s "$value", s "1")] [VText (s "t")]].
+Example sx_needs_attrs_plain :
+  match run_dom (map (map erase_v) [sx_attr_dollar]) with
+  | Some e => (clash_free_tree e, names_plain e, attrs_vs_children_b e, namespace_free_b e,
+               forallb adjacent_b sx_attr_dollar, forallb data_oriented_b sx_attr_dollar,
+               attrs_plain_b e,
+               de_doc sx_flavour (render_abs serde_xml_rs e) false sx_attr_dollar)
+  | None => (false, false, false, false, false, false, true, Some FNone)
+  end = (true, true, true, true, true, true, false, None).
+Proof. vm_compute. reflexivity. Qed.
